@@ -118,28 +118,72 @@ theorem bodies_bound (zbz nbz : Nat) (memo : Bytes) (hz : 1 ≤ zbz) (hn : 1 ≤
       · have : memo.drop zbz = [] := List.drop_eq_nil_iff.mpr hn
         rw [this, chunks_nil] at hb; cases hb
 
-/-- what a successful `rendPlan` guarantees about the body sizes and the count field -/
-theorem rendPlan_ok (cfg : TxCfg) (ml : Nat) (vid : Option Bytes) (mid : Bytes) (pl : Plan) (h : rendPlan cfg ml vid mid = .ok pl) :
+/-- the stored gram size is at least the minimum the `size` setter enforces for the CURRENT code and encoding -/
+def Legal (cfg : TxCfg) : Prop := ∃ m, minSize cfg.code cfg.curt = .ok m ∧ m ≤ cfg.size
+
+theorem setSize_legal (cfg cfg' : TxCfg) (n : Nat) (h : setSize cfg n = .ok cfg') :
+    Legal cfg' ∧ cfg'.code = cfg.code ∧ cfg'.curt = cfg.curt ∧ n ≤ cfg'.size := by
+  unfold setSize at h
+  split at h
+  · rename_i m hm
+    cases h
+    exact ⟨⟨m, hm, Nat.le_max_right _ _⟩, rfl, rfl, Nat.le_max_left _ _⟩
+  · simp at h
+
+/-- re-clamping a legal configuration changes nothing (what `self.size = self._size` does when nothing else changed) -/
+theorem setSize_idem (cfg : TxCfg) (h : Legal cfg) : setSize cfg cfg.size = .ok cfg := by
+  obtain ⟨m, hm, hle⟩ := h
+  simp [setSize, hm, Nat.max_eq_left hle]
+
+theorem applySetter_legal (cfg cfg' : TxCfg) (s : Setter) (h : applySetter cfg s = .ok cfg') : Legal cfg' := by
+  cases s with
+  | code c =>
+    simp only [applySetter] at h
+    split at h
+    · exact (setSize_legal _ _ _ h).1
+    · simp at h
+  | curt b => exact (setSize_legal _ _ _ h).1
+  | size n => exact (setSize_legal _ _ _ h).1
+
+theorem applySetters_legal (cfg cfg' : TxCfg) (ss : List Setter) (hl : Legal cfg) (h : applySetters cfg ss = .ok cfg') : Legal cfg' := by
+  induction ss generalizing cfg with
+  | nil => simp only [applySetters] at h; cases h; exact hl
+  | cons s ss ih =>
+    simp only [applySetters] at h
+    split at h
+    · rename_i c1 h1; exact ih c1 (applySetter_legal _ _ _ h1) h
+    · simp at h
+
+theorem mkCfg_legal (code : Bytes) (curt : Bool) (size : Nat) (cfg : TxCfg) (h : mkCfg code curt size = .ok cfg) : Legal cfg := by
+  unfold mkCfg at h
+  split at h
+  · exact (setSize_legal _ _ _ h).1
+  · simp at h
+
+/-- what a successful `rendPlan` guarantees about the body sizes and the count field (for a legal configuration) -/
+theorem rendPlan_ok (cfg : TxCfg) (ml : Nat) (vid : Option Bytes) (mid : Bytes) (pl : Plan) (hleg : Legal cfg)
+    (h : rendPlan cfg ml vid mid = .ok pl) :
     1 ≤ pl.zbz ∧ (1 ≤ pl.nbz ∨ ml ≤ pl.zbz) ∧ numField cfg.curt (gramCount ml pl.zbz pl.nbz) pl.nz = .ok pl.gcnt ∧
       ml ≤ pl.nbz * (Gen.maxGramCount - 1) + pl.zbz := by
   unfold rendPlan rendPlanT at h
   repeat' split at h
   all_goals try (simp at h; done)
   all_goals try (cases h; done)
-  rename_i _ size hsz _ zs hzs _ ncode hpair _ ns hns hvid hmid _ zcodeb hzc _ ncodeb hnc _ midb hmb _ vidb hvb hnoz hzd hmms _ gcnt hg
+  rename_i _ zs hzs _ ncode hpair _ ns hns hvid hmid _ zcodeb hzc _ ncodeb hnc _ midb hmb _ vidb hvb hnoz hzd hmms _ gcnt hg
   cases h
-  have hsize : zozOf cfg zs + 1 ≤ size := by
-    unfold effSize at hsz
-    rw [hzs] at hsz
-    simp only at hsz
-    cases hsz
+  have hsize : zozOf cfg zs + 1 ≤ cfg.size := by
+    obtain ⟨m, hm, hle⟩ := hleg
+    unfold minSize at hm
+    rw [hzs] at hm
+    simp only at hm
+    cases hm
     unfold zozOf
-    exact Nat.le_max_right _ _
+    exact hle
   refine ⟨by simp only; omega, ?_, hg, ?_⟩
   · simp only
-    by_cases h0 : size - ns.oz = 0
+    by_cases h0 : cfg.size - ns.oz = 0
     · right
-      by_cases hgt : ml > size - zozOf cfg zs
+      by_cases hgt : ml > cfg.size - zozOf cfg zs
       · exact absurd ⟨hgt, h0⟩ hzd
       · omega
     · left; omega
